@@ -232,7 +232,13 @@ func main() {
 				if *verbose {
 					slow := map[string]time.Duration{}
 					slowN := map[string]int{}
-					e.s.SlowHook = func(d time.Duration) { slow[e.curSite] += d; slowN[e.curSite]++ }
+					e.s.SlowHook = func(d time.Duration) {
+						slow[e.curSite] += d
+						slowN[e.curSite]++
+						if d > 2*time.Second {
+							fmt.Fprintf(os.Stderr, "  slow query %.1fs at %s (path %d)%s\n", d.Seconds(), e.curSite, e.Paths, e.stackTrace())
+						}
+					}
 					defer func() {
 						for k, v := range slow {
 							fmt.Fprintf(os.Stderr, "  slow queries at %s: %d, %.2fs\n", k, slowN[k], v.Seconds())
